@@ -40,6 +40,19 @@ package transport
 //@   ensures #initial-buffer-once len(old(t.initialBuf)) > 0 ==> result.0 == old(t.initialBuf) && len(t.initialBuf) == 0 && result.1 == nil
 //@   ensures #no-initial len(old(t.initialBuf)) == 0 ==> t.initialBuf == old(t.initialBuf) && result.0 == lastRead && len(result.0) <= n
 
+// closing the telnet transport closes the socket it holds (one socket less), and the socket's own error is the answer
+//@ ghost tnCloseErr any local
+//@ func (*Telnet).Close [C16 C07]
+//@   at call! Close#1 assert #the-socket-the-transport-holds-is-what-is-closed recv == t.c
+//@   after call Close#1 set tnCloseErr = result
+//@   at return assert #the-sockets-error-is-returned-unchanged result == tnCloseErr
+//@   ensures #one-socket-less socks == old(socks) - 1
+//@ func (*Transport).GetHost [C14]
+//@   pure
+//@   ensures result == t.Args.Host
+//@ func (*Transport).GetPort [C14]
+//@   pure
+//@   ensures result == t.Args.Port
 //@ func (*Telnet).Write [C15 C16]
 //@   modifies sock
 //@   ensures result == nil ==> sock == old(sock) ++ b
